@@ -33,7 +33,7 @@ from report import Reporter
 
 TIERS = {
     "quick": dict(groups2=2, groups3=0, variants=("cold", "warm"), cap=12, per_dev=2, max_cand=40,
-                  sim_per_inst=4, bursts="{1, 2, 5, 15, 60, 240}", sweep_points=48, sweep_fn=12,
+                  sim_per_inst=4, bursts="{1, 2, 5, 15, 60, 240}", sweep_points=120, sweep_fn=16,
                   sweep_variants=("cold",), free_rounds=6, bfs_workers=8, judged_sample=600),
     "thorough": dict(groups2=9, groups3=2, variants=("cold", "warm"), cap=60, per_dev=3, max_cand=200,
                      sim_per_inst=16, bursts="{1, 2, 3, 5, 10, 25, 60, 150, 400}", sweep_points=10 ** 6,
